@@ -138,6 +138,26 @@ const ATOM_WORDS: &[&str] = &[
     "Ã©", "Âµ", "â\u{82}¬", "cafÃ©", "Ã\u{9f}x",
 ];
 
+/// Atoms an Erlang node actually sends: exit reasons, error classes, message tags, common module and
+/// function names, booleans and friends. Implementations like to special-case (intern, pre-hash, shortcut)
+/// such names, so the generators use the real vocabulary and not only synthetic strings.
+pub const OTP_VOCABULARY: &[&str] = &[
+    "ok", "error", "true", "false", "undefined", "nil", "infinity", "normal", "shutdown", "kill", "killed", "noproc", "noconnection", "nodedown",
+    "nodeup", "timeout", "timeout_value", "badarg", "badarith", "badmatch", "badfun", "badarity", "badkey", "badmap", "badrecord", "badrpc", "undef",
+    "function_clause", "case_clause", "if_clause", "try_clause", "nocatch", "system_limit", "noreply", "reply", "stop", "ignore", "EXIT", "DOWN",
+    "process", "port", "rex", "call", "cast", "$gen_call", "$gen_cast", "$gen_event", "$ancestors", "$initial_call", "system", "user", "init",
+    "erlang", "lists", "maps", "gen_server", "gen_statem", "gen_event", "supervisor", "application", "net_kernel", "global", "rpc", "erpc", "io",
+    "file", "ets", "code", "kernel", "stdlib", "os", "timer", "proc_lib", "sys", "logger", "error_logger", "alias", "monitor", "demonitor", "link",
+    "unlink", "spawn", "spawn_reply", "send", "reg_send", "exit", "exit2", "group_leader", "trap_exit", "apply", "node", "nonode@nohost", "self",
+    "start", "start_link", "handle_call", "handle_cast", "handle_info", "terminate", "code_change", "module", "function", "arity", "line", "reason",
+    "state", "data", "name", "value", "key", "id", "type", "result", "info", "warning", "debug", "notice", "critical", "enoent", "eacces", "eexist",
+    "closed", "econnrefused", "econnreset", "etimedout", "einval", "Elixir.Kernel", "Elixir.Enum", "Elixir.String", "Elixir.GenServer", "Elixir.Map",
+    "Elixir.MapSet", "Elixir.Range", "Elixir.Date", "Elixir.Time", "Elixir.DateTime", "Elixir.NaiveDateTime", "Elixir.ArgumentError",
+    "Elixir.RuntimeError", "Elixir.KeyError", "Elixir.FunctionClauseError", "Elixir.UndefinedFunctionError", "__struct__", "__exception__",
+    "message", "first", "last", "step", "year", "month", "day", "hour", "minute", "second", "microsecond", "calendar", "Elixir.Calendar.ISO",
+    "time_zone", "zone_abbr", "utc_offset", "std_offset", "map", "args", "term", "struct", "exception",
+];
+
 pub fn gen_atom(rng: &mut Rng, cfg: &GenCfg) -> String {
     match rng.below(20) {
         0 => {
@@ -168,6 +188,7 @@ pub fn gen_atom(rng: &mut Rng, cfg: &GenCfg) -> String {
             let src: String = (0..1 + rng.below(6)).map(|_| *rng.pick(&['é', 'ß', 'µ', 'ü', '€', 'a', '日'])).collect();
             src.bytes().map(|b| b as char).collect()
         }
+        6 | 7 | 8 => rng.pick(OTP_VOCABULARY).to_string(),
         2..=4 => {
             let n = rng.below(12);
             (0..n)
@@ -454,6 +475,9 @@ pub fn boundary_leaves(huge: bool) -> Vec<Val> {
         out.push(Val::Atom("日".repeat(21845))); // 65535 bytes
     }
     for w in ATOM_WORDS {
+        out.push(Val::atom(w));
+    }
+    for w in OTP_VOCABULARY {
         out.push(Val::atom(w));
     }
     for n in [0usize, 1, 2, 255, 256, 65535, 65536] {
